@@ -17,14 +17,15 @@
 (* _bkg_stats before the selective filter used it): TLC must reject it.    *)
 (***************************************************************************)
 EXTENDS Integers, Sequences, FiniteSets, TLC, Json
-CONSTANTS ThrKinds,    \* subset of {"none", "below_min", "selective"}
+CONSTANTS ThrKinds,    \* subset of {"none", "below_min", "selective", "selective_zero"}  (selective_zero: filter_threshold = 0, a falsy
+                       \* value that is not None, on data with non-positive meshes - the selective path all the same)
           Variant, MaxDepth, Emit
 Reads == {"background_mesh", "background_rms_mesh", "background", "background_rms",
           "background_median", "background_rms_median", "npixels_mesh", "npixels_map"}
 VARIABLES thr, cached, bkgStats, rmsStats, hist, failed
 vars == <<thr, cached, bkgStats, rmsStats, hist, failed>>
 
-Selective == thr = "selective"
+Selective == thr \in {"selective", "selective_zero"}
 \* what evaluating a mesh needs and does
 CanBkgMesh == bkgStats = "present"
 CanRmsMesh == rmsStats = "present" /\ (Selective => bkgStats = "present")
